@@ -16,16 +16,21 @@
      create   founder creates a contract (stores a value)    always valid
      call     founder calls that contract address            always valid (a plain transfer if no code is there)
      revert   founder creates a contract whose init code REVERTs: included as a FAILED transaction (gas is charged)
+     boxok    a box of two small transfers by the founder      always valid
+     boxfull  a box whose SECOND sub-transaction asks for more gas than a block holds: the miner drops the box after
+              the box's own gas was bought and the first sub-transaction ran (neither packaged nor reported invalid)
+     boxbad   a box whose SECOND sub-transaction is unpayable: the box is invalid after the first sub-transaction ran
    End of block: the vote-by-balance pass visits the changed accounts in hash-map order; Fold explores every order. *)
 EXTENDS Naturals, Sequences, FiniteSets, TLC
 CONSTANTS MaxCands, MaxBlocks
-Kind == {"fund", "spend", "poor", "badsig", "overspend", "votebad", "vote", "votep", "create", "call", "revert"}
+Kind == {"fund", "spend", "poor", "badsig", "overspend", "votebad", "vote", "votep", "create", "call", "revert",
+         "boxok", "boxfull", "boxbad"}
 VARIABLES state,     \* set of facts
           used,      \* kinds already offered (a signed transaction is offered to the chain once)
           blocks     \* number of blocks mined
 vars == <<state, used, blocks>>
 Pre(k, s) == CASE k \in {"spend", "votep"} -> "funded" \in s
-               [] k \in {"poor", "badsig", "overspend", "votebad"} -> FALSE
+               [] k \in {"poor", "badsig", "overspend", "votebad", "boxfull", "boxbad"} -> FALSE
                [] OTHER -> TRUE
 Eff(k, s) == CASE k = "fund" -> s \cup {"funded"}
                [] k = "spend" -> s \cup {"r2paid"}
@@ -34,6 +39,7 @@ Eff(k, s) == CASE k = "fund" -> s \cup {"funded"}
                [] k = "create" -> s \cup {"code"}
                [] k = "call" -> s \cup (IF "code" \in s THEN {"called"} ELSE {"sent"})
                [] k = "revert" -> s \cup {"failedtx"}
+               [] k = "boxok" -> s \cup {"boxed"}
                [] OTHER -> s
 RECURSIVE Miner(_, _, _)
 \* <<included, state>> after walking the candidates
